@@ -26,6 +26,8 @@ def run_checks(props, env):
         rules = sorted(set(re.findall(r"^  rule (\S+) @", c.stdout, re.M)))
         return p, c.returncode, rules, [l.strip()[:200] for l in c.stdout.splitlines() if l.startswith("  rule ")][:2]
     first = one(props[0])          # primes the facts cache for this tree
+    if first[1] == 2:              # infrastructure hiccup (exit 2 = checker error, never a verdict): one retry
+        first = one(props[0])
     with ThreadPoolExecutor(max_workers=3) as ex:
         rest = list(ex.map(one, props[1:]))
     return [first] + rest
@@ -59,9 +61,10 @@ def worker(w, kind, q, res, lock):
             for junk in subprocess.run(["find", repo, "-name", "*.orig", "-o", "-name", "*.rej"], capture_output=True, text=True).stdout.split():
                 os.remove(junk)
         alarms = [(p, rc, rules, first) for p, rc, rules, first in out if rc != 0]
+        errors = [p for p, rc, rules, first in out if rc not in (0, 1)]
         with lock:
             if kind == "neutral":
-                res[i] = {"verdict": "SILENT" if not alarms else "FALSE-ALARM", "alarms": alarms}
+                res[i] = {"verdict": "CHECKER-ERROR" if errors else ("SILENT" if not alarms else "FALSE-ALARM"), "alarms": alarms}
             else:
                 res[i] = {"verdict": "DETECTED" if any(rc == 1 for p, rc, r, f in out) else "MISSED", "rules": [(p, r) for p, rc, r, f in out]}
             print(i, res[i]["verdict"], [(a[0], a[2]) for a in alarms][:3] if kind == "neutral" else res[i]["rules"], flush=True)
